@@ -267,6 +267,25 @@ func runPktzHist(c *Case, codec pktzCodec, mtu int, pt int, ssrc, ts0 uint32, se
 	}
 	c.I.Nat(mtu).Nat(pt).U64(uint64(ssrc)).U64(uint64(ts0)).Nat(seq0).Tok(codec.name).Nat(len(ops))
 	c.O.Nat(len(ops))
+	tags := map[string]bool{}
+	ts := uint64(ts0)
+	emitted := 0
+	absOn := false
+	see := func(pkts []*rtp.Packet) {
+		for _, q := range pkts {
+			if q.SequenceNumber == 0 && emitted > 0 {
+				tags["seq:wrapped"] = true
+			}
+			emitted++
+			if q.MarshalSize() == mtu {
+				if q.Extension {
+					tags["pkt=mtu+ext"] = true
+				} else {
+					tags["pkt=mtu"] = true
+				}
+			}
+		}
+	}
 	for _, op := range ops {
 		switch op.kind {
 		case 'P':
@@ -281,20 +300,55 @@ func runPktzHist(c *Case, codec pktzCodec, mtu int, pt int, ssrc, ts0 uint32, se
 				c.O.Some().Nat(int(rec.budget)).Bool(rec.same && rec.calls == 1)
 			}
 			obsPkts(&c.O, pkts)
+			see(pkts)
+			switch {
+			case len(op.payload) == 0:
+				tags["P:empty-payload"] = true
+			case len(pkts) == 0:
+				tags["P:no-packets"] = true
+			case len(pkts) == 1:
+				tags["P:1-packet"] = true
+			default:
+				tags["P:n-packets"] = true
+			}
+			if len(op.payload) != 0 {
+				if absOn {
+					tags["P:abs-on"] = true
+				}
+				if ts+uint64(op.samples) > 0xFFFFFFFF {
+					tags["ts:wrapped"] = true
+				}
+				ts = (ts + uint64(op.samples)) & 0xFFFFFFFF
+			}
 		case 'S':
 			p.SkipSamples(op.n)
 			c.I.Tok("S").U64(uint64(op.n))
 			c.O.Tok("S")
+			if ts+uint64(op.n) > 0xFFFFFFFF {
+				tags["ts:wrapped"] = true
+			}
+			ts = (ts + uint64(op.n)) & 0xFFFFFFFF
+			tags["S"] = true
 		case 'G':
 			pkts := p.GeneratePadding(op.n)
 			c.I.Tok("G").U64(uint64(op.n))
 			c.O.Tok("G")
 			obsPkts(&c.O, pkts)
+			see(pkts)
+			if op.n > 0 {
+				tags["G:n>0"] = true
+			} else {
+				tags["G:0"] = true
+			}
 		case 'E':
 			p.EnableAbsSendTime(op.id)
 			c.I.Tok("E").Nat(op.id)
 			c.O.Tok("E")
+			absOn = op.id != 0
 		}
+	}
+	for t := range tags {
+		c.Tag(t)
 	}
 }
 
@@ -374,7 +428,7 @@ func genC06Hist(x *Ctx) {
 		}
 	}
 	// --- random histories
-	for i, n := 0, x.N(2500, 150000); i < n; i++ {
+	for i, n := 0, x.N(8000, 300000); i < n; i++ {
 		x.Case(func(c *Case) {
 			r := c.R
 			codec := pktzCodecs[r.Intn(len(pktzCodecs))]
